@@ -85,7 +85,7 @@ def enc(cfg):
     return [[k, repr(v), type(v).__name__] for k, v in cfg.items()]
 
 
-def run_one(spec):
+def run_one(spec, random_state=None):
     import numpy as np
 
     k = int(spec.get("perturb", 0))
@@ -112,7 +112,7 @@ def run_one(spec):
         ev = Evaluator.create(run, method="serial", method_kwargs={"num_workers": 1})
         kw = dict(spec.get("kwargs", {}))
         cls = {"CBO": CBO, "Random": RandomSearch, "RegEvo": RegularizedEvolution}[spec["search"]]
-        search = cls(problem, ev, random_state=int(spec["seed"]), log_dir=os.path.join(d, "log_%d" % k), **kw)
+        search = cls(problem, ev, random_state=int(spec["seed"]) if random_state is None else random_state, log_dir=os.path.join(d, "log_%d" % k), **kw)
         g0 = (np.random.get_state()[1].tobytes(), np.random.get_state()[2], random.getstate())
         if spec.get("mode", "search") == "search":
             df = search.search(max_evals=int(spec["evals"]))
